@@ -30,7 +30,7 @@ type Opts struct {
 	MinLayers, MaxLayers int // default 1..5
 	MaxOps               int // operations per layer, default 9
 	// NoHiddenTargetWhiteouts suppresses whiteouts whose target name is itself a hidden
-	// name (".wh..wh.foo", ".wh..prefetch.landmark" in the root).
+	// name (".wh..wh.foo", ".wh..prefetch.landmark" in the root) or empty (".wh.").
 	NoHiddenTargetWhiteouts bool
 }
 
@@ -199,7 +199,7 @@ func (g *layerGen) addNonDir(p string, t byte) bool {
 		e.Mode = int64(g.rng.Pick(0o644, 0o600, 0o755, 0o4755, 0o444))
 		e.Size = int64(g.rng.Pick(0, 1, 17, 300, 700, 2500))
 		e.ContentID = g.rng.U64() | 1
-		if !reservedAtRoot(parentOf(p), path.Base(p)) {
+		if !reservedAtRoot(parentOf(p), path.Base(p)) && !strings.HasPrefix(path.Base(p), WhPrefix) {
 			g.regs = append(g.regs, p)
 		}
 	case tar.TypeSymlink:
@@ -429,8 +429,12 @@ func (g *layerGen) op() {
 		}
 	case x < 91: // whiteouts of look-alikes and of hidden names
 		d := g.pickDir()
-		switch rng.Intn(4) {
-		case 0, 1:
+		switch rng.Intn(7) {
+		case 6: // a file named exactly ".wh.": begins with ".wh." but names no target
+			if !g.noHidden && g.addNonDir(join(d, WhPrefix), tar.TypeReg) {
+				g.feat["bare-wh"]++
+			}
+		case 0, 1, 4:
 			if g.addWhiteout(d, lookalikes[rng.Intn(len(lookalikes))]) {
 				g.feat["wh-of-lookalike"]++
 			}
